@@ -6,14 +6,10 @@
 //! usage: cli_driver <scripts.ndjson> <traces.ndjson> [--threads N]
 
 use std::{
-	collections::BTreeMap,
 	ffi::OsString,
 	io::{BufRead, BufWriter, Write},
 	path::PathBuf,
-	sync::{
-		atomic::{AtomicUsize, Ordering},
-		Arc, Mutex,
-	},
+	sync::Arc,
 	time::Duration,
 };
 
@@ -57,11 +53,12 @@ struct Step {
 	ev: String,
 }
 
-async fn run_script(script: Script) -> Vec<Ev> {
+async fn run_script(script: Script, slot: verif_harness::pool::Slot) -> Vec<Ev> {
 	let start = Instant::now();
 	let rec = Recorder::new(Arc::new(move || {
 		i64::try_from(start.elapsed().as_millis()).unwrap_or(i64::MAX)
 	}));
+	*slot.lock().unwrap() = Some(rec.clone());
 	{
 		let inner = rec.sink();
 		watchexec_supervisor::verif::set_thread_sink(Some(Arc::new(move |name, a, b| {
@@ -199,30 +196,24 @@ fn main() {
 		.map(|l| serde_json::from_str(&l).expect("script json"))
 		.collect();
 	let scripts = Arc::new(scripts);
-	let next = Arc::new(AtomicUsize::new(0));
-	let results: Arc<Mutex<BTreeMap<usize, Vec<Ev>>>> = Arc::new(Mutex::new(BTreeMap::new()));
-	let mut handles = Vec::new();
-	for _ in 0..threads {
-		let (scripts, next, results) = (scripts.clone(), next.clone(), results.clone());
-		handles.push(std::thread::spawn(move || loop {
-			let i = next.fetch_add(1, Ordering::SeqCst);
-			if i >= scripts.len() {
-				break;
-			}
+	let results = verif_harness::pool::run_pool(
+		scripts,
+		threads,
+		|s: &Script| s.id.clone(),
+		Arc::new(|script: Script, slot| {
 			let rt = tokio::runtime::Builder::new_current_thread().enable_all().start_paused(true).build().unwrap();
-			let script = scripts[i].clone();
-			let events = std::panic::catch_unwind(std::panic::AssertUnwindSafe(|| rt.block_on(run_script(script))))
-				.unwrap_or_else(|_| vec![Ev::new("driver_panic").a(scripts[i].id.clone())]);
+			let events = rt.block_on(run_script(script, slot));
 			drop(rt);
-			results.lock().unwrap().insert(i, events);
-		}));
-	}
-	for h in handles {
-		h.join().unwrap();
-	}
+			events
+		}),
+		std::time::Duration::from_secs(60),
+		std::time::Duration::from_secs(8),
+	);
 	let mut out = BufWriter::new(std::fs::File::create(out_path).expect("out file"));
-	for events in results.lock().unwrap().values() {
+	for events in results.values() {
 		write_events(&mut out, events).unwrap();
 	}
 	out.flush().unwrap();
+	// threads blocked for good by a deadlock in the code under test are left behind
+	std::process::exit(0);
 }
